@@ -15,7 +15,10 @@ CFG = {
             "empty or inverted range": r"^(insert|remove)_range b\d+ (in:(\d+) ex:\3|ex:(\d+) ex:\4|un ex:0|ex:4294967295 un) => 0",
             "u32::MAX touched": r" 4294967295| in:4294967295",
         },
-        "gaps": ["extend/from_iter is modelled as a fold of insert (the Rust caches the current container between equal-key values)"],
+        "gaps": ["extend/from_iter is modelled as a fold of insert (the Rust caches the current container between equal-key values)",
+                 "fidelity audit of the store kernels and 32-bit iterators (notes/fidelity-stores-iter32.md): every ArrayStore / BitmapStore mutator is mirrored branch for branch; the one simplification found — BitmapStore::insert_range summed and then filled the middle words where the Rust counts and overwrites them in one loop — is closed: BStore.insertRangeMirror (midLoop) = BStore.insertRange under BStore.Inv (C01_bstore_insertRange_mirror), and the compiled driver executes the mirrored loop (guarded @[csimp] BStore.insertRange_eq_exec, C01_driver_runs_insertRange_mirror)"],
+        "gaps": ["fidelity audit (notes/fidelity-bitmap-core.md): no simplification left open in inherent.rs / iter.rs / container.rs / util.rs. The driver now executes statement-by-statement mirrors (RoaringModel/Mirror32.lean) for the three mutators whose first model used a different algorithm, each proved equal to it (Lemmas/Mirror32.lean) and restated in Props/C01.lean: Extend/FromIterator keep current_container_index between values of equal key (Bitmap.extendMirror, extend_mirror_eq — unconditional; C01_extend_mirror); remove_smallest / remove_biggest are position / rposition + drain + indexed call, and the bitset->array rebuild inside them drains a BitmapIter (Bitmap.removeSmallestMirror / removeBiggestMirror, Container.*Mirror, BStore.iterAll; *_mirror_eq under the store invariants Bitmap.WF contains; C01_removeSmallest_mirror / C01_removeBiggest_mirror); C01_step_mirror / C01_history_mirror are the step and history theorems over the mirrored step",
+                 "Bitmap.step (the dispatcher of the history theorem) is not itself executed by the driver: the driver calls the same per-operation definitions one op line at a time"],
     "level_text": "Theorems (Lean 4, kernel-checked) that the model of every RoaringBitmap mutator refines the abstract set operation on strictly ascending lists, for all histories and arguments; the model is tied to the Rust source by running both on the same generated histories in two build profiles. Unbounded quantifier = theorem; tie = sampled.",
     "level_note": "Trusted: Lean kernel; the hand-written model mirrors the code (checked by correspondence on generated histories only); Spec.lean as the meaning of 'set of u32'; std Vec/binary_search primitives are modelled by their contracts. Theorems still missing for a given operation are listed in evidence coverage.proof_gaps.",
     }
